@@ -40,6 +40,19 @@ let dec_err_name = function UnexpectedCharacter -> "UnexpectedCharacter" | NotIm
   | UnexpectedEnd -> "UnexpectedEnd" | CharsetError -> "CharsetError" | ECICode -> "ECICode"
 let show_dec f o = match o with Ok v -> "ok " ^ f v | Err e -> "err " ^ dec_err_name e | Panic _ -> "panic"
 
+let parse_trace (s : string) : nat list list =
+  (* "T" ^ perms joined by '/', each a comma list, "-" for the empty one *)
+  let body = String.sub s 1 (String.length s - 1) in
+  if body = "" then [] else
+  List.map (fun p -> List.map nat_of_int (ints p)) (String.split_on_char '/' body)
+let show_plan = function
+  | None -> "none"
+  | Some [] -> "some:-"
+  | Some l -> "some:" ^ String.concat "," (List.map (fun (n, m) -> Printf.sprintf "%d:%d" (int_of_n n) (int_of_n (et_index m))) l)
+let show_stats st =
+  Printf.sprintf "%d %d %d %s" (int_of_n st.st_steps) (int_of_n st.st_max_live) (int_of_n st.st_iterations)
+    (match st.st_last_cost with Some c -> string_of_int (int_of_n c) | None -> "N")
+
 let sym_of (i : int) = match ss_of_index (n_of_int i) with Some s -> s | None -> failwith "bad symbol index"
 
 let dispatch (op : string) (a : string array) : string =
@@ -69,6 +82,13 @@ let dispatch (op : string) (a : string array) : string =
   | "bitmap_tag" -> let (w, bits) = d_bitmap_tag (sym_of (int_of_string a.(0))) in Printf.sprintf "ok %d %s" (int_of_n w) (shown bits)
   | "from_bits" -> show_conv (d_from_bits (n_of_int (int_of_string a.(0))) (bools a.(1)))
   | "from_bits_flip" -> show_conv (d_from_bits_flip (sym_of (int_of_string a.(0))) (bools a.(1)) (n_of_int (int_of_string a.(2))))
+  | "plan" ->
+    let trace = if Array.length a > 3 then Some (parse_trace a.(3)) else None in
+    (match d_plan (nlist a.(0)) (nlist a.(1)) (n_of_int (int_of_string a.(2))) trace with
+     | Ok (p, st) -> show_plan p ^ " " ^ show_stats st
+     | Panic PBadOracle -> "bad-oracle"
+     | Panic _ -> "panic"
+     | Err _ -> "err")
   | "decode_data" -> show_dec shown (d_decode_data (nlist a.(0)))
   | "decode_str" -> show_dec shown (d_decode_str (nlist a.(0)))
   | "read_eci" -> show_dec (fun (n, e) -> Printf.sprintf "%d %d" (int_of_n n) (int_of_n e)) (d_read_eci (nlist a.(0)))
